@@ -292,10 +292,14 @@ func cmdCheck(args []string) int {
 			stragglers = append(stragglers, o)
 		}
 	}
-	if len(stragglers) > 0 && len(stragglers) <= 24 {
+	if len(stragglers) > 0 && len(stragglers) <= 400 {
+		// (no small cap: with a cap, a machine busy enough to delay more obligations than the cap would turn all of them into alarms)
 		o2 := *opts
 		o2.Budget = opts.Budget * 3
 		o2.Jobs = 4
+		if len(stragglers) > 24 {
+			o2.Jobs = 8
+		}
 		discharge(stragglers, &o2)
 	}
 	// the bit/popcount lemma library is a premise of every word-level function: re-prove it on this run
